@@ -158,6 +158,16 @@ class Session:
             pass
 
 
+async def reap_tasks():
+    """Cancel every task except the caller's (rigs run one at a time under a single driver task)."""
+    me = asyncio.current_task()
+    others = [t for t in asyncio.all_tasks() if t is not me and not t.done()]
+    for t in others:
+        t.cancel()
+    if others:
+        await asyncio.gather(*others, return_exceptions=True)
+
+
 class StepTask:
     """A running step with exception capture."""
 
@@ -173,12 +183,14 @@ class StepTask:
         return None
 
     async def stop(self):
+        """Cancel the step and the helper tasks it left behind (pending Port.get tasks)."""
         if not self.task.done():
             self.task.cancel()
         try:
             await self.task
         except BaseException:
             pass
+        await reap_tasks()
 
 
 class GatherRig:
@@ -421,3 +433,98 @@ async def run_workflow(session: Session, d: int, mode: str, val, rng, watchdog: 
     res["out"], res["term"] = port_log(src)
     res["order"] = list(sh.emitted)
     return res
+
+
+# ------------------------------------------------------------------------------------------------
+# combinators (C02)
+# ------------------------------------------------------------------------------------------------
+
+PORT_NAMES = ["A", "B", "C"]
+
+
+def tree_spec(kind: str, np_: int):
+    """The trees of MC_Combinator.MCTree as nested tuples (kind, depth, name, items)."""
+    leafs = PORT_NAMES[:np_]
+    rest = PORT_NAMES[2:np_]
+    return {
+        "dot": ("dot", 0, "c", leafs),
+        "cart1": ("cart", 1, "c", leafs),
+        "cart2": ("cart", 2, "c", leafs),
+        "dotcart": ("dot", 0, "c", [("cart", 1, "i", ["A", "B"])] + rest),
+        "dotdot": ("dot", 0, "c", [("dot", 0, "i", ["A", "B"])] + rest),
+        "cartdot": ("cart", 1, "c", [("dot", 0, "i", ["A", "B"])] + rest),
+        "cartcart": ("cart", 1, "c", [("cart", 1, "i", ["A", "B"])] + rest),
+    }[kind]
+
+
+def build_combinator(wf, spec):
+    from streamflow.workflow.combinator import CartesianProductCombinator, DotProductCombinator
+    kind, depth, name, items = spec
+    if kind == "dot":
+        c = DotProductCombinator(name=name, workflow=wf)
+    else:
+        c = CartesianProductCombinator(name=name, workflow=wf, depth=depth)
+    for it in items:
+        if isinstance(it, str):
+            c.add_item(it)
+        else:
+            inner = build_combinator(wf, it)
+            # as the translator does (_create_residual_combinator): the inner combinator owns all its ports
+            c.add_combinator(inner, inner.get_items(recursive=True))
+    return c
+
+
+class CombRig:
+    """A real CombinatorStep around real combinator objects; tokens are put one at a time."""
+
+    def __init__(self, session: Session, kind: str, np_: int):
+        self.s, self.kind, self.np = session, kind, np_
+        self.ports = PORT_NAMES[:np_]
+
+    async def start(self):
+        from streamflow.workflow.step import CombinatorStep
+        wf = self.wf = self.s.workflow()
+        comb = build_combinator(wf, tree_spec(self.kind, self.np))
+        self.step = wf.create_step(cls=CombinatorStep, name="/comb", combinator=comb)
+        self.inp, self.out = {}, {}
+        for p in self.ports:
+            self.inp[p] = wf.create_port(name="i_" + p)
+            self.out[p] = wf.create_port(name="o_" + p)
+            self.step.add_input_port(p, self.inp[p])
+            self.step.add_output_port(p, self.out[p])
+        await wf.save(self.s.sf.database)
+        self.run = StepTask(self.step)
+        await self.s.quiet.settle()
+        return self
+
+    async def arrive(self, port, tag):
+        from streamflow.core.workflow import Token
+        t = Token(value="%s:%s" % (port, tag_str(tag)), tag=tag_str(tag))
+        await t.save(self.s.sf.database, self.inp[port].persistent_id)
+        self.inp[port].put(t)
+        await self.s.quiet.settle()
+
+    async def terminate(self):
+        from streamflow.workflow.token import TerminationToken
+        for p in self.ports:
+            self.inp[p].put(TerminationToken())
+        await self.s.quiet.settle()
+
+    def observe(self):
+        """emitted schemas: the i-th token of every output port belongs to the i-th schema"""
+        logs = {p: port_log(self.out[p])[0] for p in self.ports}
+        n = min(len(v) for v in logs.values())
+        ragged = any(len(v) != n for v in logs.values())
+        schemas = []
+        for i in range(n):
+            sch = []
+            for p in self.ports:
+                tag, val = logs[p][i]
+                src = val.split(":", 1)[1] if isinstance(val, str) and ":" in val else repr(val)
+                owner = val.split(":", 1)[0] if isinstance(val, str) and ":" in val else "?"
+                sch.append((p if owner == p else "%s<-%s" % (p, owner), src, tag))
+            schemas.append(tuple(sorted(sch)))
+        return {"schemas": schemas, "ragged": ragged, "error": self.run.error(), "done": self.run.task.done()}
+
+    async def stop(self):
+        await self.run.stop()
